@@ -21,7 +21,7 @@ func (c *ProgCase) Reqs() []Req  { return []Req{{Src: []byte(c.P.Source())}} }
 
 func upperLen(s PStmt) int {
 	switch s.K {
-	case "inst", "movl", "lgdt":
+	case "inst", "movl", "lgdt", "meml":
 		return 13
 	case "jmp":
 		return 6
@@ -86,6 +86,15 @@ func (c *ProgCase) Judge(rs []Res, env *Env) Outcome {
 			if ob.Dollar {
 				kind = "dollar-value"
 			}
+			if ob.Via == "meml" {
+				// the label's value is wrong only where it stands inside brackets: reported, and the other places are still judged
+				if prop == "C03" {
+					o.Status = Violated
+					o.Viols = append(o.Viols, Violation{Sig: fmt.Sprintf("C03|mem-label-value|m%d|MOV r,[label]|value=%d", w.ModeAt[ob.Stmt], ob.Value),
+						Detail: fmt.Sprintf("statement %d `%s` addresses %#x, but the label %s is at %#x; output %s; program:\n%s", ob.Stmt, p.Stmts[ob.Stmt].Line(), ob.Value, ob.Label, uint64(want)&mask, hexOut, src)})
+				}
+				continue
+			}
 			culprit := c.culprit(w, ob, lab, limit)
 			if c.SysK != "" {
 				culprit = c.SysK
@@ -113,6 +122,7 @@ func (c *ProgCase) Judge(rs []Res, env *Env) Outcome {
 			}
 		}
 	}
+	memViols := o.Viols
 	// 2. branch targets (C04's in-program part)
 	for _, br := range w.Branches {
 		if br.Stmt >= limit {
@@ -198,6 +208,10 @@ func (c *ProgCase) Judge(rs []Res, env *Env) Outcome {
 			}
 		}
 		o.Status, o.Note = Inconclusive, "walk stopped ("+w.FailKind+"): "+oneLine(w.FailWhy, 120)
+		return o
+	}
+	if len(memViols) > 0 {
+		o.Status, o.Viols = Violated, memViols
 		return o
 	}
 	o.Status = Held
@@ -313,6 +327,12 @@ func c03Systematic(r *Rand, mode int, org int64, k PStmt, idx int) *ProgCase {
 		PStmt{K: "movl", Reg: probeReg(mode, idx+1), Label: "after"},
 		PStmt{K: "movl", Reg: probeReg(mode, idx+2), Label: "$"},
 		PStmt{K: "lgdt", Label: "after"},
+	)
+	if idx%5 == 0 {
+		// a label inside the brackets of a memory operand is one more place where its value is embedded
+		p.Stmts = append(p.Stmts, PStmt{K: "meml", Reg: probeReg(mode, idx+4), Label: "first"})
+	}
+	p.Stmts = append(p.Stmts,
 		PStmt{K: "jmp", Mn: Pick(r, []string{"JMP", "JE", "JNZ", "CALL", "JC"}), Label: "after"},
 		PStmt{K: "data", W: 4, Items: []DItem{{Kind: "label", Label: "first", Text: "first"}}},
 		PStmt{K: "label", Label: "zend"},
